@@ -6,6 +6,7 @@ package httpserver
 
 import (
 	"bytes"
+	"crypto/tls"
 	"net"
 	"net/http"
 
@@ -66,4 +67,12 @@ func (v *VerifHelloListener) Recorded(addr string) (caskettls.ClientHelloInfo, b
 // Handler is the tlsHandler that consults this listener.
 func (v *VerifHelloListener) Handler(next http.Handler) http.Handler {
 	return &tlsHandler{next: next, listener: v.l}
+}
+
+// Listener wraps ln the way Server.Listen does for TLS sites: the returned listener's Accept is
+// the real tlsHelloListener.Accept (tee of the ClientHello + tls.Server); Recorded and Handler of
+// the returned value consult its helloInfos.
+func VerifTLSHelloListener(ln net.Listener, config *tls.Config) (net.Listener, *VerifHelloListener) {
+	l := newTLSListener(ln, config)
+	return l, &VerifHelloListener{l: l}
 }
